@@ -127,7 +127,8 @@ def gen(rng, tier, i):
             if rng.random() < 0.4:
                 # other well-formed ways of saying yes: empty reason phrase, HTTP/1.0, extra headers
                 yes = rng.choice([b"HTTP/1.1 200 \r\n\r\n", b"HTTP/1.0 200 Connection established\r\n\r\n", b"HTTP/1.1 200 OK\r\nVia: 1.1 up\r\nX-A: b\r\n\r\n",
-                                  b"HTTP/1.1 200 Connection Established\r\nProxy-Agent: x\r\n\r\n"])
+                                  b"HTTP/1.1 200 Connection Established\r\nProxy-Agent: x\r\n\r\n",
+                                  b"HTTP/1.1 200 OK\r\nProxy-Agent:x\r\nVia:\t1.1 up \r\n\r\n"])   # optional whitespace around a field value is optional
                 for o in srv["default_ops"]:
                     if o["op"] == "send":
                         o["hex"] = yes.hex()
